@@ -453,8 +453,11 @@ KEYWORDS = set('as break const continue crate else enum extern false fn for if i
                'return self Self static struct super trait true type unsafe use where while dyn'.split())
 
 
+FORWARDERS = (r'move\|(\w+)\|\{(\w+)\.next\(\1\);?\}', r'move\|(\w+)\|\{(\w+)\.error\(\1\);?\}', r'move\|\|\{(\w+)\.complete\(\);?\}')
+
+
 def rewrite_body(cl: Closure, sk: Skeleton, src: str, op: str, captures: Dict[str, str],
-                 helper_sigs: Dict[str, List[str]], allow_closure_params=False, allow_calls=()) -> Extracted:
+                 helper_sigs: Dict[str, List[str]], allow_closure_params=False, allow_calls=(), world=False) -> Extracted:
     body = cl.body
     if not body:
         raise NotExtractable('empty closure body')
@@ -498,6 +501,33 @@ def rewrite_body(cl: Closure, sk: Skeleton, src: str, op: str, captures: Dict[st
                 reps.append((ts[b].start, ts[b].start, 'sctl.subscribe_inner('))
                 reps.append((prev.start, g.end, ')'))
                 sctl_used = True
+                i += 2
+                continue
+            if world and t.is_id('subscribe') and prev is not None and prev.is_p('.') and i + 1 < len(ts) and ts[i + 1].is_group('('):
+                # R13 (connect idiom): `E.subscribe(move |x| { A.next(x); }, move |e| { B.error(e); }, move || { C.complete(); })` where
+                # A, B, C are local clones of ONE captured subject S  ->  `E.subscribe_forwarding_to(&S, world)`
+                g = ts[i + 1]
+                parts = split_commas(g.kids)
+                if parts and not parts[-1]:
+                    parts = parts[:-1]
+                names = []
+                if len(parts) == 3:
+                    for part, pat in zip(parts, FORWARDERS):
+                        txt = re.sub(r'\s+', '', src[part[0].start:part[-1].end])
+                        m = re.fullmatch(pat, txt)
+                        names.append(m.group(m.lastindex) if m else None)
+                targets = set(local_alias.get(n) for n in names) if names and all(names) else set()
+                if len(targets) != 1 or None in targets:
+                    raise NotExtractable('subscribe(..) whose three callbacks are not plain forwarders to clones of one captured subject')
+                subj = targets.pop()
+                reps.append((t.start, g.end, 'subscribe_forwarding_to(&%s, world)' % subj))
+                if subj not in caps_used:
+                    caps_used.append(subj)
+                i += 2
+                continue
+            if world and t.is_id('unsubscribe') and prev is not None and prev.is_p('.') and i + 1 < len(ts) and ts[i + 1].is_group('(') and not ts[i + 1].kids:
+                # R14: `X.unsubscribe()` on a stored connection is an effect on the world log
+                reps.append((t.start, ts[i + 1].end, 'unsubscribe_in(world)'))
                 i += 2
                 continue
             if t.kind == 'ident' and t.text in ('inner_subscribe', 'subscribe', 'new_observer', 'spawn') and t.text not in allow_calls:
@@ -573,6 +603,8 @@ def rewrite_body(cl: Closure, sk: Skeleton, src: str, op: str, captures: Dict[st
                     continue
             if t.is_id('let'):
                 j8 = match_seq(ts, i, ['let', 'ident', '=', 'ident', '.', 'clone', '()', ';'])
+                if j8 > 0 and world and sk.canon(ts[i + 3].text) in captures and ts[i + 3].text not in local_bound:
+                    local_alias[ts[i + 1].text] = sk.canon(ts[i + 3].text)   # `let A = S.clone();`: A is another handle on the captured S
                 if j8 > 0 and sk.sctl and sk.canon(ts[i + 3].text) == sk.sctl:
                     # `let A = <controller alias>.clone();` inside a handler: A is just another name of the controller (R2)
                     reps.append((t.start, ts[j8 - 1].end, ''))
@@ -606,6 +638,7 @@ def rewrite_body(cl: Closure, sk: Skeleton, src: str, op: str, captures: Dict[st
             i += 1
 
     local_bound = set()
+    local_alias = {}
     pending_bind = []
     scan(body)
     # R3: `_` parameters
